@@ -2089,6 +2089,24 @@ class Checker:
                     return rt
                 raise Unsupported(f"method `{prt[1]}::{n}` is not a translated function")
             return self.call_method(e, f, recv, prt, False)
+        if isinstance(prt, tuple) and prt[0] == "enum":
+            f = self.w.find_fn([prt[1], n], self.file, self.impl_type)
+            if f is None:
+                raise Unsupported(f"method `{prt[1]}::{n}` is not a translated function")
+            rec = self.w.translate(f)
+            if rec.self_mode != "value":
+                raise Unsupported(f"`{prt[1]}::{n}` does not take the enum by `&self`")
+            self.inherit_abstract(rec)
+            if len(e.args) != len(rec.params) - 1 - len(rec.abstract_names):
+                raise Unsupported(f"arity mismatch calling `{n}`")
+            for a, pb in zip(e.args, rec.params[1:]):
+                unify(self.infer(a), pb.ty, f"in argument of `{n}`")
+            for er in rec.env_recs:
+                self.env(er)
+            if rec not in self.callees:
+                self.callees.append(rec)
+            e.res = ("valuemethod", rec)
+            return rec.ret
         if isinstance(prt, tuple) and prt[0] == "vec":
             return self.infer_vec_method(e, base, prt)
         if isinstance(prt, tuple) and prt[0] == "tuple" and len(prt[1]) == 2 and n == "contains" and len(e.args) == 1:
@@ -2816,6 +2834,8 @@ class Gen:
                 return self.app(r[1], sa, [self.E(a) for a in e.args])
             if r[0] == "identm":
                 return self.E(e.recv)
+            if r[0] == "valuemethod":
+                return self.app(r[1], [], [self.E(e.recv)] + [self.E(a) for a in e.args])
             if r[0] == "rangecontains":
                 rg, x = P(self.E(e.recv)), self.E(e.args[0])
                 return f"decide ({rg}.1 ≤ {x}) && decide ({x} < {rg}.2)"
@@ -3139,6 +3159,8 @@ class Gen:
             if e.res[0] == "selfmethod" and e.res[1].needs_ok:
                 sa = [self.chk.self_fields[f].lean for f in e.res[1].self_field_names]
                 cs.append(self.okapp(e.res[1], sa, [self.E(a) for a in e.args]))
+            if e.res[0] == "valuemethod" and e.res[1].needs_ok:
+                cs.append(self.okapp(e.res[1], [], [self.E(e.recv)] + [self.E(a) for a in e.args]))
             if e.res[0] == "method" and e.res[1].needs_ok:
                 cs.append(self.okapp(e.res[1], self.recv_fields(e.res[1], self.E(e.recv), e.res[2]),
                                      [self.E(a) for a in e.args]))
@@ -3753,7 +3775,7 @@ class Gen:
 # =============================================================================================
 
 class Entry:
-    def __init__(self, file, impl, fn, lean, out, fuel=None, note="", abstract=None, trait=None, rec_fuel=None):
+    def __init__(self, file, impl, fn, lean, out, fuel=None, note="", abstract=None, trait=None, rec_fuel=None, ret=None):
         self.file, self.impl, self.fn, self.lean, self.out = file, impl, fn, lean, out
         self.fuel = fuel or {}
         self.note = note
@@ -3764,6 +3786,9 @@ class Entry:
         # a directly self-recursive function is translated as `<fn>_fuel : Nat → …` (structural recursion on the
         # fuel; exhausted fuel = `_ok` false) and `<fn> := <fn>_fuel rec_fuel`; sufficiency is proved, not trusted
         self.rec_fuel = rec_fuel
+        # declared return type to use INSTEAD of the source's (phase 5): for `-> Result<Box<dyn Trait>, E>` constructors
+        # of one-field context structs (`new_cuckarood_ctx`): the boxed value is the wrapped field
+        self.ret = ret
         self.key = (file, impl, fn)
 
     @property
@@ -3789,6 +3814,7 @@ CUCKAROOM = "core/src/pow/cuckaroom.rs"
 CUCKAROOZ = "core/src/pow/cuckarooz.rs"
 CUCKATOO = "core/src/pow/cuckatoo.rs"
 PRUNE = "store/src/prune_list.rs"
+TPOOL = "pool/src/transaction_pool.rs"
 
 VERIFY_FUEL = "2 * size + 1"
 
@@ -3915,6 +3941,23 @@ WHITELIST = [
     Entry(PRUNE, "PruneList", "append", "PruneList_append", "FnsPrune", rec_fuel=64),
     Entry(PRUNE, "PruneList", "len", "PruneList_len", "FnsPrune"),
     Entry(PRUNE, "PruneList", "is_empty", "PruneList_is_empty", "FnsPrune"),
+    # phase 5: the context constructors (`Box<dyn PoWContext>` = the params of the one-field context struct)
+    Entry(POWC, "CuckooParams", "new", "CuckooParams_new", "FnsCtx"),
+    Entry(CUCKAROO, None, "new_cuckaroo_ctx", "new_cuckaroo_ctx", "FnsCtx", ret="Result<CuckooParams, Error>"),
+    Entry(CUCKAROOD, None, "new_cuckarood_ctx", "new_cuckarood_ctx", "FnsCtx", ret="Result<CuckooParams, Error>"),
+    Entry(CUCKAROOM, None, "new_cuckaroom_ctx", "new_cuckaroom_ctx", "FnsCtx", ret="Result<CuckooParams, Error>"),
+    Entry(CUCKAROOZ, None, "new_cuckarooz_ctx", "new_cuckarooz_ctx", "FnsCtx", ret="Result<CuckooParams, Error>"),
+    Entry(BLK, "Block", "verify_kernel_lock_heights", "Block_verify_kernel_lock_heights", "FnsCtx",
+          abstract=[("self.kernels()", "kernels", "Vec<TxKernel>"), ("self.header.height", "height", "u64")]),
+    Entry(TXS, "KernelFeatures", "is_nrd", "KernelFeatures_is_nrd", "FnsCtx"),
+    Entry(TXS, "TxKernel", "is_nrd", "TxKernel_is_nrd", "FnsCtx"),
+    Entry(BLK, "Block", "verify_nrd_kernels_for_header_version", "Block_verify_nrd_kernels_for_header_version", "FnsCtx",
+          abstract=[("self.kernels()", "kernels", "Vec<TxKernel>"), ("self.header.version", "version", "HeaderVersion")]),
+    Entry(TPOOL, "TransactionPool", "is_acceptable", "TransactionPool_is_acceptable", "FnsCtx",
+          abstract=[("tx.shifted_fee()", "shifted_fee", "u64"), ("tx.accept_fee()", "accept_fee", "u64"),
+                    ("self.total_size()", "total_size", "usize"), ("self.config.max_pool_size", "max_pool_size", "usize"),
+                    ("self.stempool.size()", "stempool_size", "usize"),
+                    ("self.config.max_stempool_size", "max_stempool_size", "usize")]),
     Entry(CUCKATOO, "CuckatooContext", "verify_impl", "Cuckatoo_verify", "FnsVerify",
           fuel={3: VERIFY_FUEL, 4: VERIFY_FUEL}),
     Entry(CUCKAROOZ, "CuckaroozContext", "verify", "Cuckarooz_verify", "FnsVerify", trait="PoWContext",
@@ -3928,10 +3971,10 @@ WHITELIST = [
 OUT_OF_FILE = {PMMR: "FnsPmmr", CONS: "FnsCons", GLOB: "FnsCons", SEG: "FnsSeg", TXS: "FnsTx", BLK: "FnsCons",
                POWT: "FnsCons", SIP: "FnsPow", POWC: "FnsPow", LIBTX: "FnsTx", BMACC: "FnsBitmap", P2PMSG: "FnsMsg",
                CUCKAROO: "FnsVerify", CUCKAROOD: "FnsVerify", CUCKAROOM: "FnsVerify", CUCKAROOZ: "FnsVerify",
-               CUCKATOO: "FnsVerify", PRUNE: "FnsPrune"}
-OUTS = ["FnsPmmr", "FnsCons", "FnsSeg", "FnsTx", "FnsPow", "FnsBitmap", "FnsVerify", "FnsPrune"]
+               CUCKATOO: "FnsVerify", PRUNE: "FnsPrune", TPOOL: "FnsCtx"}
+OUTS = ["FnsPmmr", "FnsCons", "FnsSeg", "FnsTx", "FnsPow", "FnsBitmap", "FnsVerify", "FnsPrune", "FnsCtx"]
 TYPE_FILES = [PMMR, CONS, GLOB, SEG, TXS, BLK, POWT, SIP, POWC, LIBTX, BMACC, P2PMSG,
-              CUCKAROO, CUCKAROOD, CUCKAROOM, CUCKAROOZ, CUCKATOO, PRUNE]
+              CUCKAROO, CUCKAROOD, CUCKAROOM, CUCKAROOZ, CUCKATOO, PRUNE, TPOOL]
 
 
 def consts_in_consts_lean():
@@ -4278,8 +4321,15 @@ class World:
             item = Item(item.kind, item.name, item.container, 0, len(out), out, item.test)
             extra.append((pname, pty, text))
         ast = parse_fn(item, self.macros(entry.file))
+        if entry.ret is not None:
+            tt = lex(entry.ret)
+            ast.ret = Parser(tt, 0, len(tt)).type_()
         for pname, pty, text in extra:
-            ast.params.append(("param", pname, False, ("name", [pty], [])))
+            if re.fullmatch(r"[A-Za-z0-9_]+", pty):
+                ast.params.append(("param", pname, False, ("name", [pty], [])))
+            else:
+                tt = lex(pty)
+                ast.params.append(("param", pname, False, Parser(tt, 0, len(tt)).type_()))
         own_abstract = [pname for pname, _, _ in extra]
         chk = Checker(self, entry.file, entry.impl)
         chk.typarams = ast.typarams
@@ -4287,6 +4337,10 @@ class World:
         rec.entry, rec.lean, rec.out, rec.rust_name = entry, entry.lean, entry.out, entry.rust_name
         rec.has_self = any(p[0] in ("self", "mutself") for p in ast.params)
         rec.self_mode = "whole" if any(p[0] == "mutself" for p in ast.params) else "flat" if rec.has_self else None
+        # phase 5: a `&self` method of an ENUM takes the enum value as its first parameter (`self_mode = "value"`)
+        if rec.self_mode == "flat" and entry.impl and not self.find_items("struct", entry.impl) \
+                and self.enum(entry.impl) is not None:
+            rec.self_mode = "value"
         if ast.ret is None and rec.self_mode != "whole":
             raise Unsupported("function without a return value")
         chk.ret = chk.resolve_type(ast.ret) if ast.ret is not None else "unit"
@@ -4298,6 +4352,8 @@ class World:
                 raise Unsupported("`&mut self` on a one-field struct")
             self.struct_info(entry.impl)
             selfb = chk.declare("self", ("struct", entry.impl), True, "param")
+        if rec.self_mode == "value":
+            rec.params.append(chk.declare("self", ("enum", entry.impl), False, "param"))
         for kind, name, mut, ty in ast.params:
             if kind == "param":
                 b = chk.declare(name, chk.resolve_type(ty), mut, "param")
@@ -4323,7 +4379,9 @@ class World:
             raise Unsupported("return type not determined")
         # environment / self-field parameters (own uses + callees')
         rec.env_recs = [er for er in ENV if er[2] in chk.env_used]
-        if rec.has_self:
+        if rec.has_self and rec.self_mode == "flat" and not chk.self_fields:
+            rec.self_field_names = []     # every use of `self` was abstracted: the struct need not be readable (generic)
+        elif rec.has_self and rec.self_mode != "value":
             st = self.struct(entry.impl)
             order = [str(i) for i in range(len(st[1]))] if st[0] == "tuple" else [f for f, _ in st[1]]
             rec.self_field_names = [f for f in order if f in chk.self_fields]
